@@ -96,9 +96,10 @@ package zlib
 //@ func (*reader).Reset
 //@   params z, r, dict -> err
 //@   requires (typeis(z.decompressor, *github.com/intel/fastgo/compress/flate.decompressor) ==> (z.decompressor.(*github.com/intel/fastgo/compress/flate.decompressor).rBuf != nil ==> brOK(z.decompressor.(*github.com/intel/fastgo/compress/flate.decompressor).rBuf)) && tabsOK(&z.decompressor.(*github.com/intel/fastgo/compress/flate.decompressor).state)) && (typeis(r, *bufio.Reader) ==> brOK(r.(*bufio.Reader)))
-//@   modifies *z, **z.decompressor, **r, extReads, peekErr, lastReadN, lastReadErr, rfErr, rfN
+//@   modifies *z, **z.decompressor, **r, extReads, peekErr, lastReadN, lastReadErr, rfErr, rfN, lastStdResetDictNil
 //@   ensures[C13 fresh] err == nil ==> zrBase(z) && z.err == nil
 //@   ensures@5[C13 dict-honoured] haveDict ==> typeis(z.decompressor, other)
+//@   ensures@5[C03 C13 no-dict-without-fdict] !haveDict && old(z.decompressor) != nil && typeis(old(z.decompressor), other) ==> lastStdResetDictNil
 //@   ensures[C07 C15 no-eof] err != io.EOF
 //@   ensures[C15 err-recorded] z.err == err
 //@   ensures[C05 C13 src] err == nil && typeis(r, *bufio.Reader) ==> typeis(z.r, *bufio.Reader) && z.r.(*bufio.Reader) == r.(*bufio.Reader)
